@@ -248,7 +248,7 @@ func checkC12(w *Worker) {
 	// in package-level state over to the next, which is exactly what a separate invocation of the tool cannot do)
 	// every special scenario (harness/specials.go): the days of its log as blocks, in file order and reversed, every
 	// edge "first k days -> first k+1 days"
-	specials := specialScenarios()
+	specials := specialsFor(w.Tier)
 	pick = func(x *Exec, depth int) c12Pick {
 		si := x.Choose(len(specials), "input:scenario")
 		sc := specials[si]
